@@ -4,6 +4,7 @@ import (
 	"encoding/json"
 	"fmt"
 	"github.com/FollowTheProcess/spok/file"
+	"github.com/FollowTheProcess/spok/parser"
 	"os"
 	"path/filepath"
 	"strings"
@@ -119,12 +120,14 @@ func TestPlan(t *testing.T) {
 		binShards("^TestForceBinary$", 8, 40, 16, 400)
 	case "C13":
 		binShards("^TestVars$", 16, 150, 16, 1300)
+		p.Shards = append(p.Shards, ev.ShardSpec{Name: "inprocess-0", Test: "^TestVarsInProcess$", TimeoutS: 600})
 	case "C09":
 		binShards("^TestFail$", 16, 60, 16, 1300)
 	case "C20":
 		binShards("^TestReport$", 16, 40, 16, 1000)
 	case "C19":
 		binShards("^TestWrite$", 16, 80, 16, 1500)
+		p.Shards = append(p.Shards, ev.ShardSpec{Name: "writetemplates-0", Test: "^TestWriteTemplates$", TimeoutS: 900})
 	case "C10":
 		p.Level = "fault_enumeration"
 		binShards("^TestKill$", 16, 25, 16, 350)
@@ -154,6 +157,7 @@ func TestPlan(t *testing.T) {
 		bs := ev.RapidShards("binary", "^TestFindBinary$", nb, cb, nil)
 		p.Shards = append(p.Shards, bs...)
 		p.Shards = append(p.Shards, ev.ShardSpec{Name: "unprivileged-0", Test: "^TestFindUnprivileged$", AsNobody: true, TimeoutS: 900})
+		p.Shards = append(p.Shards, ev.ShardSpec{Name: "relative-0", Test: "^TestFindRelative$", TimeoutS: 600})
 		p.Shards = append(p.Shards, ev.ShardSpec{Name: "deep-0", Test: "^TestFindDeep$", TimeoutS: 1200})
 	}
 	if err := ev.WritePlan(p); err != nil {
@@ -357,6 +361,41 @@ func TestFindUnprivileged(t *testing.T) {
 	}
 }
 
+// TestFindRelative: the start directory given as a relative path (".", "d", "d/t"), which only a
+// caller of the Go API can do: the search must still end.
+func TestFindRelative(t *testing.T) {
+	s := ev.Open(t, "C17")
+	s.Watchdog(10*time.Second, 4<<30)
+	defer s.Done()
+	base := findBase(t)
+	var idx uint64
+	for _, cfg := range [][]int{{lvNothing, lvNothing, lvNothing}, {lvSpokfile, lvNothing, lvNothing}, {lvNothing, lvSpokfile, lvNothing}, {lvNothing, lvNothing, lvSpokfile}, {lvDirSpok, lvNothing, lvNothing}, {lvSpokBefore, lvNothing, lvDirSpok}} {
+		c := FindCase{Cfg: cfg, Child: []string{"d", "t"}}
+		if err := c.build(base); err != nil {
+			t.Fatal(err)
+		}
+		for cwdLevel := 0; cwdLevel < 3; cwdLevel++ {
+			for startLevel := cwdLevel; startLevel < 3; startLevel++ {
+				for _, stopLevel := range []int{0, cwdLevel, -1} {
+					c.Start, c.Stop, c.RelFrom = startLevel, stopLevel, cwdLevel+1
+					idx++
+					data, _ := json.Marshal(c)
+					s.Progress(idx, data)
+					s.Tick()
+					s.Eval()
+					s.NonTrivial("rel" + string(data))
+					if f := execFind(s, base, c); f != nil {
+						s.Violation("find", f.Sig, f.Msg, f.Size, c)
+					}
+				}
+			}
+		}
+	}
+	if s.Failed() {
+		t.Fatal("violations recorded")
+	}
+}
+
 // TestFindDeep: long chains (a working directory dozens of levels below its spokfile).
 func TestFindDeep(t *testing.T) {
 	s := ev.Open(t, "C17")
@@ -491,6 +530,8 @@ func replayOther(t *testing.T, v ev.Violation, raw []byte) *rp.Fail {
 			t.Fatal(err)
 		}
 		return execForce(nil, newBox(t), c)
+	case "vars-inproc":
+		return execVarsInProcess(t, nil)
 	case "unpriv-find":
 		var c PermCase
 		if err := json.Unmarshal(raw, &c); err != nil {
@@ -875,6 +916,105 @@ func TestWrite(t *testing.T) {
 	})
 }
 
+// TestWriteTemplates: one ordinary project (a task with a glob dependency and a declared output that
+// exists) under every project directory name, run / forced / listed / formatted, from the root and a
+// nested directory, as a first invocation and after two earlier ones with an edit in between.
+func TestWriteTemplates(t *testing.T) {
+	s := ev.Open(t, "C19")
+	b := newBox(t)
+	seen := map[string]bool{}
+	src := "V := \"value\"\n\n# builds it\ntask build(\"**/*.go\") -> \"bin/out\" {\n    echo {{.V}}\n    true\n}\n\ntask default(build) {\n    echo hi\n}\n"
+	tree := []string{"main.go", "pkg/a.go", "docs/readme.md", "Makefile", "spokfile.bak"}
+	dirs := append([]string{""}, projDirPool...)
+	for _, dir := range dirs {
+		for _, nested := range []bool{false, true} {
+			for _, fl := range [][]string{nil, {"--force"}, {"--show"}, {"--fmt"}, {"--json"}, {"--vars"}} {
+				for _, hist := range []int{0, 2} {
+					c := WriteCase{Tree: tree, Class: "valid", Src: src, Flags: fl, Nested: nested, ProjDir: dir, Prior: hist, EditDep: hist > 0}
+					if fl == nil || fl[0] == "--force" || fl[0] == "--json" {
+						c.Tasks = []string{"build"}
+					}
+					s.Eval()
+					s.Class("enumerated_ordinary_project")
+					if f := execWrite(s, b, c); f != nil && !seen[f.Sig] {
+						seen[f.Sig] = true
+						s.Violation("write", f.Sig, f.Msg, f.Size, c)
+					}
+				}
+			}
+		}
+	}
+	if s.Failed() {
+		t.Fatal("violations recorded")
+	}
+}
+
+// TestVarsInProcess: a long-lived caller of the Go API loads one spokfile after the other — from
+// different working directories, with a spokfile in between whose command cannot be expanded. What a
+// variable's value is and what text a command carries depends on that spokfile and on the working
+// directory at that moment, not on what was loaded before.
+func TestVarsInProcess(t *testing.T) {
+	s := ev.Open(t, "C13")
+	if f := execVarsInProcess(t, s); f != nil {
+		s.Violation("vars-inproc", f.Sig, f.Msg, 3, map[string]any{"sequence": "three directories x 40 rounds, a spokfile that does not load in between"})
+		t.Fatal("violations recorded")
+	}
+}
+
+func execVarsInProcess(t *testing.T, s *ev.Shard) *rp.Fail {
+	base, err := os.MkdirTemp(workBase(t), "inproc-")
+	if err != nil {
+		t.Fatal(err)
+	}
+	defer os.RemoveAll(base)
+	old, _ := os.Getwd()
+	defer os.Chdir(old)
+	good := func(greeting string) string {
+		return fmt.Sprintf("GREETING := %q\nJ := join(\"out\", \"x\")\nJONE := join(\"solo\")\n\ntask show() {\n    echo {{.GREETING}} and {{.J}}\n    echo plain words $HOME\n}\n", greeting)
+	}
+	bad := "GREETING := \"hi\"\n\ntask show() {\n    echo leaked words {{.GREETING.Length}}\n}\n"
+	load := func(dir, src string) (*file.SpokFile, error) {
+		if err := os.MkdirAll(dir, 0o755); err != nil {
+			t.Fatal(err)
+		}
+		if err := os.Chdir(dir); err != nil {
+			t.Fatal(err)
+		}
+		tree, err := parser.New(src).Parse()
+		if err != nil {
+			t.Fatalf("harness: %v", err)
+		}
+		return file.New(tree, dir, nopLogger{})
+	}
+	for round := 0; round < 40; round++ {
+		for k, name := range []string{"first", "second dir", "third"} {
+			dir := filepath.Join(base, name)
+			greeting := fmt.Sprintf("hello %d %d", round, k)
+			if k == 1 {
+				_, _ = load(filepath.Join(base, "broken"), bad) // may fail to load; must leave nothing behind
+			}
+			sf, err := load(dir, good(greeting))
+			if s != nil {
+				s.Eval()
+				s.Class("spokfile_loaded_in_process")
+				s.NonTrivial(fmt.Sprint("inproc", round, k))
+			}
+			if err != nil {
+				return &rp.Fail{Sig: "valid-program-rejected", Msg: fmt.Sprintf("load %d in %s failed: %v", round*3+k, dir, err)}
+			}
+			if sf.Vars["J"] != filepath.Join(dir, "out", "x") || sf.Vars["JONE"] != filepath.Join(dir, "solo") {
+				return &rp.Fail{Sig: "template-substitution", Msg: fmt.Sprintf("loaded in working directory %s (after loads from other directories in the same process): join(\"out\", \"x\") = %q, join(\"solo\") = %q", dir, sf.Vars["J"], sf.Vars["JONE"])}
+			}
+			cmds := sf.Tasks["show"].Commands
+			want := []string{"echo " + greeting + " and " + filepath.Join(dir, "out", "x"), "echo plain words $HOME"}
+			if len(cmds) != 2 || cmds[0] != want[0] || cmds[1] != want[1] {
+				return &rp.Fail{Sig: "command-text-changed", Msg: fmt.Sprintf("load %d in %s: the commands of task show are %q, want %q", round*3+k, dir, cmds, want)}
+			}
+		}
+	}
+	return nil
+}
+
 func TestKill(t *testing.T) {
 	s := ev.Open(t, "C10")
 	b := newBox(t)
@@ -1088,6 +1228,18 @@ func TestCleanTemplates(t *testing.T) {
 	type outs struct {
 		lit, globs []string
 		named      []NamedOut
+	}
+	// hidden entries in the project root next to matches of slash-less output globs
+	for _, g := range [][]string{{"*.tmp"}, {"*"}, {"*.tmp", "b*/*"}, {"**/*.tmp"}} {
+		for _, inv := range []string{"", "rel-parent"} {
+			c := CleanCase{Tree: []string{".git/config", ".a.tmp", ".cache.d/x.tmp", "notes.tmp", "z.tmp", "build/x.o", "src/t.tmp", "README.md"}, Globs: g, NTasks: 1, Invoke: inv}
+			s.Eval()
+			s.Class("enumerated_small_clean_cases")
+			if f := execClean(s, b, c); f != nil && !seen[f.Sig] {
+				seen[f.Sig] = true
+				s.Violation("clean", f.Sig, f.Msg, f.Size, c)
+			}
+		}
 	}
 	for _, o := range []outs{{}, {globs: []string{"none/*.zzz"}}, {lit: []string{"missing/file"}}, {lit: []string{"bin/app"}}, {named: []NamedOut{{"NOPE", `"nothing/here"`, "nothing/here"}}}, {globs: []string{"build/*.o"}}} {
 		for _, pre := range []bool{true, false} {
